@@ -116,6 +116,23 @@ theorem scanned_functions_leave_entry_objects (name : String) (p : Alias.AStmt)
   simp only [hnot, Bool.false_or] at this
   exact Alias.isSafe_sound this hex
 
+/-- **every history of scanned functions**: after any sequence of calls — any of the scanned functions
+outside the restoring ones, any number, any order, each started from an arbitrary binding of its
+parameters to the objects that exist — every object that existed before the first call (the schema, its
+components, their checks and dtypes) is exactly as it was -/
+theorem scanned_function_histories_leave_entry_objects (calls : List (String × Alias.AStmt))
+    (hmem : ∀ c ∈ calls, c ∈ Generated.SchemaMutation.progs ∧ restoring.contains c.1 = false)
+    {s s' : Alias.St} (hh : Alias.Hist (calls.map (·.2)) s s') :
+    ∀ r, r < s.next → s'.heap r = s.heap r := by
+  refine (Alias.hist_untouched hh ?_).2
+  intro p hp
+  obtain ⟨c, hc, rfl⟩ := List.mem_map.mp hp
+  have hall := schema_side_writes_are_owned
+  rw [List.all_eq_true] at hall
+  have := hall c (hmem c hc).1
+  simp only [(hmem c hc).2, Bool.false_or] at this
+  exact this
+
 /-- non-vacuity: the shape of a conditional copy followed by an unconditional write (what a
 "copy only when needed" refactoring of `collect_schema_components` produces) is rejected, and has an
 execution that changes an object of the schema -/
